@@ -14,12 +14,12 @@ type bld struct {
 	l16 []int
 }
 
-func (x *bld) raw(p ...byte) *bld  { x.b = append(x.b, p...); return x }
-func (x *bld) str(s string) *bld   { x.b = append(x.b, s...); return x }
-func (x *bld) u16(v int) *bld      { x.b = append(x.b, byte(v>>8), byte(v)); return x }
-func (x *bld) u32(v uint32) *bld   { x.b = binary.BigEndian.AppendUint32(x.b, v); return x }
-func (x *bld) len8(v int) *bld     { x.l8 = append(x.l8, len(x.b)); x.b = append(x.b, byte(v)); return x }
-func (x *bld) len16(v int) *bld    { x.l16 = append(x.l16, len(x.b)); return x.u16(v) }
+func (x *bld) raw(p ...byte) *bld { x.b = append(x.b, p...); return x }
+func (x *bld) str(s string) *bld  { x.b = append(x.b, s...); return x }
+func (x *bld) u16(v int) *bld     { x.b = append(x.b, byte(v>>8), byte(v)); return x }
+func (x *bld) u32(v uint32) *bld  { x.b = binary.BigEndian.AppendUint32(x.b, v); return x }
+func (x *bld) len8(v int) *bld    { x.l8 = append(x.l8, len(x.b)); x.b = append(x.b, byte(v)); return x }
+func (x *bld) len16(v int) *bld   { x.l16 = append(x.l16, len(x.b)); return x.u16(v) }
 func (x *bld) seed(name string) seed {
 	return seed{name: name, data: x.b, len8: x.l8, len16: x.l16}
 }
@@ -336,6 +336,7 @@ func dhcp4(name string, op byte, mtype byte, ciaddr, giaddr [4]byte, mac []byte,
 	x.raw(255)
 	s := x.seed(name)
 	s.rep = rep
+	s.cold = [2]int{44, 236} // sname + file
 	return s
 }
 
